@@ -665,9 +665,11 @@ theorem model_eq_live_runs :
 
 example : Gen.C08Live.liveRuns.length ≥ 20 := by decide +kernel
 
--- the same table is NOT reproduced by the models of the two seeded changes
+-- the same table is NOT reproduced by the models of the two seeded changes (for C08-m2 the model is
+-- imported with the history's own records instead of the 450 shipped ones, to keep the kernel
+-- evaluation short; for the real code that makes no difference, `restart_is_import`)
 example : ¬ ∀ h ∈ Gen.C08Live.liveRuns,
-    observe Code.m2 liveRecords (.setRecords h.1 :: .init true :: h.2.1) = h.2.2 := by
+    observe Code.m2 h.1 (.setRecords h.1 :: .init true :: h.2.1) = h.2.2 := by
   decide +kernel
 example : ¬ ∀ h ∈ Gen.C08Live.liveRuns,
     observe Code.m3 liveRecords (.setRecords h.1 :: .init true :: h.2.1) = h.2.2 := by
